@@ -187,6 +187,385 @@ Proof.
   rewrite H2, Nat.min_l by exact Hk. exact Hf.
 Qed.
 
+(* ---------- the partition into ranged loads; no panic ---------- *)
+Definition rend (b : req) : Z := r_off b + r_len b.
+Definition nonneg (b : req) : Prop := 0 <= r_len b.
+
+(* the split decisions of streamPack alone: parts handed to streamPackPart so far, and whether an overlap
+   stopped the loop (the pending part is then not streamed) *)
+Fixpoint split_go (cur : list req) (lower lastpos : Z) (l : list req) : list (list req) * bool :=
+  match l with
+  | [] => ([cur], false)
+  | b :: r =>
+      if r_off b <? lastpos then ([], true)
+      else
+        let lower' := match cur with [] => r_off b | _ => lower end in
+        if (match cur with [] => false | _ => true end && (r_off b + r_len b - lower' >=? max_chunk_size))
+           || (r_off b - lastpos >? max_unused_range)
+        then let '(ps, ov) := split_go [b] (r_off b) (r_off b + r_len b) r in (cur :: ps, ov)
+        else split_go (cur ++ [b]) lower' (r_off b + r_len b) r
+  end.
+
+Fixpoint run_parts (e : env) (t : tr) (ps : list (list req)) : tr * result :=
+  match ps with
+  | [] => (t, ROk)
+  | p :: r => match stream_part e t p with (t', ROk) => run_parts e t' r | x => x end
+  end.
+
+Definition finish (x : tr * result) (ov : bool) : tr * result :=
+  match x with (t', ROk) => (t', if ov then RErr else ROk) | y => y end.
+
+Lemma stream_go_split e l : forall t cur lower lastpos,
+  stream_go e t cur lower lastpos l =
+  finish (run_parts e t (fst (split_go cur lower lastpos l))) (snd (split_go cur lower lastpos l)).
+Proof.
+  induction l as [|b r IH]; intros t cur lower lastpos; cbn [stream_go split_go].
+  - cbn [fst snd run_parts]. destruct (stream_part e t cur) as [t' x]. destruct x; reflexivity.
+  - destruct (r_off b <? lastpos); [reflexivity|].
+    destruct ((match cur with [] => false | _ :: _ => true end &&
+               (r_off b + r_len b - match cur with [] => r_off b | _ :: _ => lower end >=? max_chunk_size))
+              || (r_off b - lastpos >? max_unused_range)).
+    + specialize (IH (fst (stream_part e t cur)) [b] (r_off b) (r_off b + r_len b)).
+      destruct (split_go [b] (r_off b) (r_off b + r_len b) r) as [ps ov]. cbn [fst snd] in *.
+      cbn [run_parts]. destruct (stream_part e t cur) as [t' x]. cbn [fst] in IH. destruct x; [exact IH|reflexivity|reflexivity].
+    + apply IH.
+Qed.
+
+Fixpoint chain (p : list req) : Prop :=
+  match p with
+  | x :: ((y :: _) as r) => rend x <= r_off y <= rend x + max_unused_range /\ chain r
+  | _ => True
+  end.
+
+(* a part: non-empty, blobs in offset order without overlap, gaps of at most maxUnusedRange, and - unless it
+   consists of a single blob - shorter than maxChunkSize *)
+Definition part_ok (p : list req) : Prop :=
+  exists f r, p = f :: r /\ Forall nonneg p /\ chain p /\ (r <> [] -> rend (last p f) - r_off f < max_chunk_size).
+
+Definition cur_inv (cur : list req) (lower lastpos : Z) : Prop :=
+  exists f r, cur = f :: r /\ lower = r_off f /\ lastpos = rend (last cur f) /\ Forall nonneg cur /\ chain cur /\
+              (r <> [] -> lastpos - lower < max_chunk_size).
+
+Lemma last_default (l : list req) : forall a d d', last (a :: l) d = last (a :: l) d'.
+Proof. induction l as [|y l IH]; intros a d d'; [reflexivity|]. change (last (y :: l) d = last (y :: l) d'). apply IH. Qed.
+
+Lemma last_snoc (l : list req) b d : last (l ++ [b]) d = b.
+Proof. apply last_last. Qed.
+
+Lemma chain_snoc r : forall f b, chain (f :: r) -> rend (last (f :: r) f) <= r_off b <= rend (last (f :: r) f) + max_unused_range ->
+  chain ((f :: r) ++ [b]).
+Proof.
+  induction r as [|y r IH]; intros f b Hc Hb.
+  - cbn [app chain last] in *. split; [exact Hb|exact I].
+  - destruct Hc as [H1 H2]. change ((f :: y :: r) ++ [b]) with (f :: ((y :: r) ++ [b])).
+    change (chain (f :: (y :: r) ++ [b])) with (rend f <= r_off y <= rend f + max_unused_range /\ chain ((y :: r) ++ [b])).
+    split; [exact H1|]. apply IH; [exact H2|].
+    change (last (f :: y :: r) f) with (last (y :: r) f) in Hb. rewrite (last_default r y f y) in Hb. exact Hb.
+Qed.
+
+Lemma chain_start_le_end r : forall f, Forall nonneg (f :: r) -> chain (f :: r) -> r_off f <= rend (last (f :: r) f).
+Proof.
+  induction r as [|y r IH]; intros f Hn Hc.
+  - cbn [last]. inversion Hn; subst. unfold rend, nonneg in *. lia.
+  - destruct Hc as [H1 H2]. inversion Hn; subst. specialize (IH y H4 H2).
+    change (last (f :: y :: r) f) with (last (y :: r) f). rewrite (last_default r y f y).
+    unfold rend, nonneg in *. lia.
+Qed.
+
+Lemma max_unused_nonneg : 0 <= max_unused_range. Proof. unfold max_unused_range, ParamsC43.max_unused_range. lia. Qed.
+
+Lemma split_go_ok l : forall cur lower lastpos, Forall nonneg l -> cur_inv cur lower lastpos ->
+  Forall part_ok (fst (split_go cur lower lastpos l)) /\
+  exists rest, concat (fst (split_go cur lower lastpos l)) ++ rest = cur ++ l /\
+               (snd (split_go cur lower lastpos l) = false -> rest = []).
+Proof.
+  induction l as [|b r IH]; intros cur lower lastpos Hl (f & q & Hcur & Hlow & Hlast & Hn & Hc & Hsz); cbn [split_go].
+  - cbn [fst snd concat]. split.
+    + constructor; [|constructor]. exists f, q. subst. repeat split; try assumption.
+    + exists []. rewrite !app_nil_r. split; reflexivity.
+  - apply Forall_cons_iff in Hl as [Hb Hr].
+    destruct (r_off b <? lastpos) eqn:Eov.
+    + cbn [fst snd concat app]. split; [constructor|]. exists (cur ++ b :: r). split; [reflexivity|discriminate].
+    + assert (Hcne : match cur with [] => false | _ :: _ => true end = true) by (rewrite Hcur; reflexivity).
+      assert (Hlow' : match cur with [] => r_off b | _ :: _ => lower end = lower) by (rewrite Hcur; reflexivity).
+      rewrite Hcne, Hlow'. cbn [andb].
+      destruct ((r_off b + r_len b - lower >=? max_chunk_size) || (r_off b - lastpos >? max_unused_range)) eqn:Esp.
+      * (* split: cur is complete, b starts a new part *)
+        assert (Hinv : cur_inv [b] (r_off b) (r_off b + r_len b)).
+        { exists b, []. repeat split; try reflexivity; [constructor; [exact Hb|constructor]|congruence]. }
+        destruct (IH [b] (r_off b) (r_off b + r_len b) Hr Hinv) as [I1 (rest & I2 & I3)].
+        destruct (split_go [b] (r_off b) (r_off b + r_len b) r) as [ps ov]. cbn [fst snd] in *. split.
+        -- constructor; [|exact I1]. exists f, q. subst. repeat split; assumption.
+        -- exists rest. cbn [concat]. rewrite <- app_assoc, I2. split; [reflexivity|exact I3].
+      * apply orb_false_iff in Esp as [E1 E2].
+        assert (Hinv : cur_inv (cur ++ [b]) lower (r_off b + r_len b)).
+        { exists f, (q ++ [b]). rewrite Hcur. split; [reflexivity|]. split; [exact Hlow|].
+          change ((f :: q) ++ [b]) with ((f :: q) ++ [b]). rewrite last_snoc. split; [reflexivity|]. split.
+          - apply Forall_app. split; [rewrite <- Hcur; exact Hn|constructor; [exact Hb|constructor]].
+          - split.
+            + apply chain_snoc; [rewrite <- Hcur; exact Hc|]. rewrite <- Hcur, <- Hlast. pose proof max_unused_nonneg. lia.
+            + intros _. lia. }
+        destruct (IH (cur ++ [b]) lower (r_off b + r_len b) Hr Hinv) as [I1 (rest & I2 & I3)].
+        split; [exact I1|]. exists rest. rewrite I2, <- app_assoc. split; [reflexivity|exact I3].
+Qed.
+
+Lemma fallback_all_nopanic e part : forall t, snd (fallback_all e t part) <> RPanic.
+Proof.
+  induction part as [|b r IH]; intros t; cbn [fallback_all]; [discriminate|].
+  destruct (callback e t (r_id b) (fb_ok e (r_id b))) as [t' c]. destruct c; [discriminate|apply IH].
+Qed.
+
+Lemma iterate_nopanic e part : forall t cur dend, snd (iterate e t cur dend part) <> RPanic.
+Proof.
+  induction part as [|b r IH]; intros t cur dend; cbn [iterate]; [discriminate|].
+  destruct (r_off b - cur <? 0); [discriminate|]. destruct (dend - cur <? r_off b - cur); [discriminate|].
+  destruct (dend - r_off b <? r_len b); [discriminate|]. destruct (r_len b <=? nonce_size); [discriminate|].
+  destruct (callback e t (r_id b) (mem_req b (e_good e) || fb_ok e (r_id b))) as [t' c]. destruct c; [discriminate|apply IH].
+Qed.
+
+Lemma stream_part_nopanic e t p : part_ok p -> snd (stream_part e t p) <> RPanic.
+Proof.
+  intros (f & r & -> & Hn & Hc & _). unfold stream_part.
+  pose proof (chain_start_le_end r f Hn Hc) as Hle. unfold rend in Hle.
+  replace (r_off (last (f :: r) f) + r_len (last (f :: r) f) - r_off f <? 0) with false by lia.
+  destruct (mem_nat _ _ || _).
+  - destruct (e_fb e); [apply fallback_all_nopanic|discriminate].
+  - apply iterate_nopanic.
+Qed.
+
+Lemma run_parts_nopanic e ps : forall t, Forall part_ok ps -> snd (run_parts e t ps) <> RPanic.
+Proof.
+  induction ps as [|p r IH]; intros t Hp; cbn [run_parts]; [discriminate|]. inversion Hp; subst.
+  pose proof (stream_part_nopanic e t p H1) as Hs. destruct (stream_part e t p) as [t' x]. cbn [snd] in Hs.
+  destruct x; [apply IH; assumption|discriminate|congruence].
+Qed.
+
+Definition parts_of (reqs : list req) : list (list req) * bool :=
+  match sort reqs with
+  | [] => ([], false)
+  | f :: r => split_go [f] (r_off f) (r_off f + r_len f) r
+  end.
+
+Lemma sort_nonneg reqs : Forall nonneg reqs -> Forall nonneg (sort reqs).
+Proof.
+  intros H. apply Forall_forall. intros x Hx. rewrite Forall_forall in H. apply H.
+  apply (Permutation_in _ (sort_perm reqs) Hx).
+Qed.
+
+(* streamPack = the parts computed by the split rules, streamed one after the other until one fails *)
+Theorem stream_pack_parts e reqs :
+  stream_pack e reqs = finish (run_parts e (mkTr [] []) (fst (parts_of reqs))) (snd (parts_of reqs)).
+Proof.
+  unfold stream_pack, parts_of. destruct (sort reqs) as [|f r]; [reflexivity|].
+  cbn [stream_go]. replace (r_off f <? r_off f) with false by lia. cbn [andb orb].
+  replace (r_off f - r_off f >? max_unused_range) with false by (pose proof max_unused_nonneg; lia).
+  cbn [app]. apply stream_go_split.
+Qed.
+
+Theorem parts_partition reqs : Forall nonneg reqs ->
+  Forall part_ok (fst (parts_of reqs)) /\
+  exists rest, concat (fst (parts_of reqs)) ++ rest = sort reqs /\ (snd (parts_of reqs) = false -> rest = []).
+Proof.
+  intros Hn. apply sort_nonneg in Hn. unfold parts_of. destruct (sort reqs) as [|f r] eqn:E.
+  - split; [constructor|]. exists []. split; reflexivity.
+  - inversion Hn; subst.
+    apply (split_go_ok r [f] (r_off f) (r_off f + r_len f) H2).
+    exists f, []. repeat split; try reflexivity; [constructor; [assumption|constructor]|congruence].
+Qed.
+
+Theorem no_panic e reqs : Forall nonneg reqs -> snd (stream_pack e reqs) <> RPanic.
+Proof.
+  intros Hn. rewrite stream_pack_parts. destruct (parts_partition reqs Hn) as [Hp _].
+  pose proof (run_parts_nopanic e (fst (parts_of reqs)) (mkTr [] []) Hp) as H.
+  destruct (run_parts e (mkTr [] []) (fst (parts_of reqs))) as [t x]. cbn [snd finish] in *.
+  destruct x; cbn [snd]; [destruct (snd (parts_of reqs)); discriminate|discriminate|congruence].
+Qed.
+
+Example c43_parts_nonvacuous :
+  parts_of [mkReq 3 2000000 45; mkReq 2 60 40; mkReq 1 0 50] = ([[mkReq 1 0 50; mkReq 2 60 40]; [mkReq 3 2000000 45]], false)
+  /\ parts_of [mkReq 1 0 50; mkReq 2 40 40] = ([], true).
+Proof. vm_compute. split; reflexivity. Qed.
+
+(* ---------- a callback error ends the run (oracle clause 8 holds for the model) ---------- *)
+Definition cb_bound (j : nat) (t t' : tr) (r : result) : Prop :=
+  (length (t_cbs t) <= j)%nat -> (length (t_cbs t') <= S j)%nat /\ ((j < length (t_cbs t'))%nat -> r = RErr).
+
+Lemma cb_bound_same j t r : cb_bound j t t r.
+Proof. intros H. split; [lia|intros H'; lia]. Qed.
+
+Lemma cb_bound_cbs j t t0 t' r : t_cbs t0 = t_cbs t -> cb_bound j t0 t' r -> cb_bound j t t' r.
+Proof. intros E H. unfold cb_bound in *. rewrite <- E. exact H. Qed.
+
+Lemma fallback_all_bound e j part : e_cbfail e = Some j ->
+  forall t, cb_bound j t (fst (fallback_all e t part)) (snd (fallback_all e t part)).
+Proof.
+  intros Hj. induction part as [|b r IH]; intros t; cbn [fallback_all]; [apply cb_bound_same|].
+  unfold callback. rewrite Hj. destruct (Nat.eqb j (length (t_cbs t))) eqn:E.
+  - cbn [fst snd]. intros H. cbn [t_cbs]. rewrite app_length. cbn [length]. apply Nat.eqb_eq in E. split; [lia|reflexivity].
+  - intros H. apply Nat.eqb_neq in E. apply IH. cbn [t_cbs]. rewrite app_length. cbn [length]. lia.
+Qed.
+
+Lemma iterate_bound e j part : e_cbfail e = Some j ->
+  forall t cur dend, cb_bound j t (fst (iterate e t cur dend part)) (snd (iterate e t cur dend part)).
+Proof.
+  intros Hj. induction part as [|b r IH]; intros t cur dend; cbn [iterate]; [apply cb_bound_same|].
+  destruct (r_off b - cur <? 0); [apply cb_bound_same|]. destruct (dend - cur <? r_off b - cur); [apply cb_bound_same|].
+  destruct (dend - r_off b <? r_len b); [apply cb_bound_same|]. destruct (r_len b <=? nonce_size); [apply cb_bound_same|].
+  unfold callback. rewrite Hj. destruct (Nat.eqb j (length (t_cbs t))) eqn:E.
+  - cbn [fst snd]. intros H. cbn [t_cbs]. rewrite app_length. cbn [length]. apply Nat.eqb_eq in E. split; [lia|reflexivity].
+  - intros H. apply Nat.eqb_neq in E. apply IH. cbn [t_cbs]. rewrite app_length. cbn [length]. lia.
+Qed.
+
+Lemma stream_part_bound e j t part : e_cbfail e = Some j ->
+  cb_bound j t (fst (stream_part e t part)) (snd (stream_part e t part)).
+Proof.
+  intros Hj. unfold stream_part. destruct part as [|first rest]; [apply cb_bound_same|].
+  set (part := first :: rest).
+  destruct (r_off (last part first) + r_len (last part first) - r_off first <? 0); [apply cb_bound_same|].
+  set (t1 := mkTr _ (t_cbs t)).
+  destruct (mem_nat (length (t_loads t)) (e_loadfail e) || (e_size e <? r_off (last part first) + r_len (last part first))).
+  - destruct (e_fb e).
+    + apply (cb_bound_cbs j t t1); [reflexivity|]. apply fallback_all_bound, Hj.
+    + cbn [fst snd]. apply (cb_bound_cbs j t t1); [reflexivity|apply cb_bound_same].
+  - apply (cb_bound_cbs j t t1); [reflexivity|]. apply iterate_bound, Hj.
+Qed.
+
+Lemma stream_go_bound e j l : e_cbfail e = Some j -> forall t cur lower lastpos,
+  cb_bound j t (fst (stream_go e t cur lower lastpos l)) (snd (stream_go e t cur lower lastpos l)).
+Proof.
+  intros Hj. induction l as [|b r IH]; intros t cur lower lastpos; cbn [stream_go].
+  - apply stream_part_bound, Hj.
+  - destruct (r_off b <? lastpos); [apply cb_bound_same|].
+    destruct ((match cur with [] => false | _ :: _ => true end &&
+               (r_off b + r_len b - match cur with [] => r_off b | _ :: _ => lower end >=? max_chunk_size))
+              || (r_off b - lastpos >? max_unused_range)); [|apply IH].
+    pose proof (stream_part_bound e j t cur Hj) as Hp.
+    destruct (stream_part e t cur) as [t' x]. cbn [fst snd] in Hp. destruct x; [|exact Hp|exact Hp].
+    intros H. destruct (Hp H) as [H1 H2].
+    assert (Hle : (length (t_cbs t') <= j)%nat).
+    { destruct (le_lt_dec (length (t_cbs t')) j) as [L|L]; [exact L|]. specialize (H2 L). discriminate. }
+    apply (IH t' [b] (r_off b) (r_off b + r_len b) Hle).
+Qed.
+
+Theorem callback_error_stops e reqs j : e_cbfail e = Some j ->
+  (length (t_cbs (fst (stream_pack e reqs))) <= S j)%nat /\
+  ((j < length (t_cbs (fst (stream_pack e reqs))))%nat -> snd (stream_pack e reqs) = RErr).
+Proof.
+  intros Hj. unfold stream_pack. destruct (sort reqs) as [|f r]; [cbn; split; [lia|intros H; lia]|].
+  apply (stream_go_bound e j (f :: r) Hj (mkTr [] []) [] (r_off f) (r_off f)). cbn. lia.
+Qed.
+
+(* ---------- without download failures every intact or fallback-loadable blob is delivered (clause 7) ---------- *)
+Lemma Forall2_len {A B} (R : A -> B -> Prop) l l' : Forall2 R l l' -> length l = length l'.
+Proof. induction 1; cbn [length]; [reflexivity|lia]. Qed.
+
+Definition strict_cb (e : env) (b : req) (cb : N * N) : Prop :=
+  fst cb = r_id b /\ (snd cb = 0%N -> mem_req b (e_good e) || fb_ok e (r_id b) = false).
+
+Definition extends2 (e : env) (t t' : tr) (part : list req) : Prop :=
+  exists k new, (k <= length part)%nat /\ t_cbs t' = t_cbs t ++ new /\ Forall2 (strict_cb e) (firstn k part) new.
+
+Lemma extends2_same e t t' part : t_cbs t' = t_cbs t -> extends2 e t t' part.
+Proof. intros H. exists 0%nat, []. split; [lia|]. split; [rewrite app_nil_r; exact H|constructor]. Qed.
+
+Lemma extends2_trans e t t1 t2 a b : extends e t t1 a ROk -> extends2 e t t1 a -> extends2 e t1 t2 b -> extends2 e t t2 (a ++ b).
+Proof.
+  intros (k0 & n0 & _ & Hc0 & Hf0 & Hr0) (k1 & n1 & Hk1 & Hc1 & Hf1) (k2 & n2 & Hk2 & Hc2 & Hf2).
+  specialize (Hr0 eq_refl). subst k0. rewrite firstn_all in Hf0.
+  assert (Hn : n0 = n1) by (rewrite Hc0 in Hc1; apply app_inv_head in Hc1; exact Hc1). subst n1.
+  assert (Hk : k1 = length a).
+  { apply Forall2_len in Hf0. apply Forall2_len in Hf1. rewrite firstn_length in Hf1. lia. }
+  subst k1. rewrite firstn_all in Hf1.
+  exists (length a + k2)%nat, (n0 ++ n2). split; [rewrite app_length; lia|]. split; [rewrite Hc2, Hc1, app_assoc; reflexivity|].
+  rewrite firstn_app_2. apply Forall2_app; assumption.
+Qed.
+
+Lemma extends2_weaken e t t1 a b : extends2 e t t1 a -> extends2 e t t1 (a ++ b).
+Proof.
+  intros (k & n & Hk & Hc & Hf). exists k, n. split; [rewrite app_length; lia|]. split; [exact Hc|].
+  rewrite firstn_app. replace (k - length a)%nat with 0%nat by lia. cbn [firstn]. rewrite app_nil_r. exact Hf.
+Qed.
+
+Lemma iterate_extends2 e part : forall t cur dend, extends2 e t (fst (iterate e t cur dend part)) part.
+Proof.
+  induction part as [|b rest IH]; intros t cur dend; cbn [iterate]; [apply extends2_same; reflexivity|].
+  destruct (r_off b - cur <? 0); [apply extends2_same; reflexivity|].
+  destruct (dend - cur <? r_off b - cur); [apply extends2_same; reflexivity|].
+  destruct (dend - r_off b <? r_len b); [apply extends2_same; reflexivity|].
+  destruct (r_len b <=? nonce_size); [apply extends2_same; reflexivity|].
+  unfold callback.
+  set (ok := mem_req b (e_good e) || fb_ok e (r_id b)).
+  set (t1 := mkTr (t_loads t) (t_cbs t ++ [(r_id b, if ok then 1%N else 0%N)])).
+  assert (Hcb : strict_cb e b (r_id b, if ok then 1%N else 0%N)).
+  { split; [reflexivity|]. cbn [snd]. destruct ok eqn:E; [discriminate|intros _; exact E]. }
+  destruct (match e_cbfail e with Some j => Nat.eqb j (length (t_cbs t)) | None => false end).
+  - cbn [fst]. exists 1%nat, [(r_id b, if ok then 1%N else 0%N)]. split; [cbn [length]; lia|]. split; [reflexivity|].
+    cbn [firstn]. constructor; [exact Hcb|constructor].
+  - destruct (IH t1 (r_off b + r_len b) dend) as (k & n & Hk & Hc & Hf).
+    exists (S k), ((r_id b, if ok then 1%N else 0%N) :: n). split; [cbn [length]; lia|]. split.
+    + rewrite Hc. unfold t1. cbn [t_cbs]. rewrite <- app_assoc. reflexivity.
+    + cbn [firstn]. constructor; assumption.
+Qed.
+
+Definition inb (e : env) (b : req) : Prop := r_off b + r_len b <= e_size e.
+
+Lemma last_in (r : list req) : forall f, In (last (f :: r) f) (f :: r).
+Proof.
+  induction r as [|y r IH]; intros f; [left; reflexivity|].
+  change (last (f :: y :: r) f) with (last (y :: r) f). rewrite (last_default r y f y). right. apply IH.
+Qed.
+
+Lemma stream_part_extends2 e t part : e_loadfail e = [] -> Forall (inb e) part ->
+  extends2 e t (fst (stream_part e t part)) part.
+Proof.
+  intros Hlf Hin. unfold stream_part. destruct part as [|first rest]; [apply extends2_same; reflexivity|].
+  set (part := first :: rest) in *.
+  destruct (r_off (last part first) + r_len (last part first) - r_off first <? 0); [apply extends2_same; reflexivity|].
+  set (t1 := mkTr _ (t_cbs t)).
+  assert (Hl : inb e (last part first)) by (rewrite Forall_forall in Hin; apply Hin, last_in).
+  unfold inb in Hl. rewrite Hlf. cbn [mem_nat existsb orb].
+  replace (e_size e <? r_off (last part first) + r_len (last part first)) with false by lia.
+  destruct (iterate_extends2 e part t1 (r_off first) (r_off (last part first) + r_len (last part first))) as (k & n & Hk & Hc & Hf).
+  exists k, n. split; [exact Hk|]. split; [exact Hc|exact Hf].
+Qed.
+
+Lemma stream_go_extends2 e l : e_loadfail e = [] -> forall t cur lower lastpos, Forall (inb e) (cur ++ l) ->
+  extends2 e t (fst (stream_go e t cur lower lastpos l)) (cur ++ l).
+Proof.
+  intros Hlf. induction l as [|b r IH]; intros t cur lower lastpos Hin; cbn [stream_go].
+  - rewrite app_nil_r in *. apply stream_part_extends2; assumption.
+  - destruct (r_off b <? lastpos); [apply extends2_same; reflexivity|].
+    apply Forall_app in Hin as [Hc Hbr]. apply Forall_cons_iff in Hbr as [Hb Hr].
+    destruct ((match cur with [] => false | _ :: _ => true end &&
+               (r_off b + r_len b - match cur with [] => r_off b | _ :: _ => lower end >=? max_chunk_size))
+              || (r_off b - lastpos >? max_unused_range)).
+    + pose proof (stream_part_extends e t cur) as Hp. pose proof (stream_part_extends2 e t cur Hlf Hc) as Hp2.
+      destruct (stream_part e t cur) as [t' x]. cbn [fst snd] in *. destruct x.
+      * assert (Hbr : Forall (inb e) ([b] ++ r)) by (constructor; assumption).
+        specialize (IH t' [b] (r_off b) (r_off b + r_len b) Hbr). cbn [app] in IH.
+        apply (extends2_trans e t t' _ cur (b :: r) Hp Hp2 IH).
+      * cbn [fst]. apply extends2_weaken, Hp2.
+      * cbn [fst]. apply extends2_weaken, Hp2.
+    + assert (Hall : Forall (inb e) ((cur ++ [b]) ++ r)).
+      { rewrite <- app_assoc. apply Forall_app. split; [exact Hc|constructor; assumption]. }
+      specialize (IH t (cur ++ [b]) (match cur with [] => r_off b | _ :: _ => lower end) (r_off b + r_len b) Hall).
+      rewrite <- app_assoc in IH. exact IH.
+Qed.
+
+Theorem no_failure_all_delivered e reqs : no_load_failure e reqs = true ->
+  let t := fst (stream_pack e reqs) in
+  Forall2 (strict_cb e) (firstn (length (t_cbs t)) (sort reqs)) (t_cbs t).
+Proof.
+  intros Hn. unfold no_load_failure in Hn. destruct (e_loadfail e) eqn:Hlf; [|discriminate].
+  assert (Hin : Forall (inb e) (sort reqs)).
+  { apply Forall_forall. intros x Hx. rewrite forallb_forall in Hn. unfold inb.
+    specialize (Hn x (Permutation_in _ (sort_perm reqs) Hx)). lia. }
+  cbn zeta. unfold stream_pack. destruct (sort reqs) as [|f r] eqn:E; [constructor|].
+  destruct (stream_go_extends2 e (f :: r) Hlf (mkTr [] []) [] (r_off f) (r_off f) Hin) as (k & n & Hk & Hc & Hf).
+  cbn [t_cbs app] in Hc. rewrite Hc. pose proof (Forall2_len _ _ _ Hf) as Hl. rewrite firstn_length in Hl.
+  cbn [app] in *. rewrite <- Hl. rewrite Nat.min_l by exact Hk. exact Hf.
+Qed.
+
 (* ---------- oracle ---------- *)
 Definition C43_holds (c : case) : Prop :=
   let sorted := sort (c_reqs c) in
@@ -196,7 +575,11 @@ Definition C43_holds (c : case) : Prop :=
   (c_res c = ROk -> n = length sorted) /\
   (forall cb, In cb (c_cbs c) -> fb_ok (c_env c) (fst cb) = true -> snd cb = 1%N) /\
   (forall b cb, In (b, cb) (combine (firstn n sorted) (c_cbs c)) ->
-     snd cb = 0%N \/ (snd cb = 1%N /\ mem_req b (e_good (c_env c)) || fb_ok (c_env c) (fst cb) = true)).
+     snd cb = 0%N \/ (snd cb = 1%N /\ mem_req b (e_good (c_env c)) || fb_ok (c_env c) (fst cb) = true)) /\
+  (no_load_failure (c_env c) (c_reqs c) = true ->
+   forall b cb, In (b, cb) (combine (firstn n sorted) (c_cbs c)) -> snd cb = 0%N ->
+     mem_req b (e_good (c_env c)) || fb_ok (c_env c) (fst cb) = false) /\
+  (forall j, e_cbfail (c_env c) = Some j -> (n <= S j)%nat /\ ((j < n)%nat -> c_res c = RErr)).
 
 Lemma N_list_eqb_spec a b : N_list_eqb a b = true <-> a = b.
 Proof. apply list_eqb_spec. intros x y. apply N.eqb_eq. Qed.
@@ -213,22 +596,36 @@ Proof.
     apply Nat.eqb_eq in E2.
     destruct (forallb _ (c_cbs c)) eqn:E3; cbn [negb] in H; [|discriminate].
     destruct (forallb _ (combine _ _)) eqn:E4; cbn [negb] in H; [|discriminate].
+    destruct (no_load_failure (c_env c) (c_reqs c) && negb (forallb _ (combine _ _))) eqn:E5; [discriminate|].
+    destruct (match e_cbfail (c_env c) with Some j => _ | None => true end) eqn:E6; cbn [negb] in H; [|discriminate].
     rewrite forallb_forall in E3, E4.
-    split; [discriminate|]. split; [exact E1|]. split; [exact E1'|]. split; [intros _; exact E2|]. split.
+    split; [discriminate|]. split; [exact E1|]. split; [exact E1'|]. split; [intros _; exact E2|]. split; [|split; [|split]].
     + intros cb Hcb Hfb. specialize (E3 cb Hcb). rewrite Hfb in E3. cbn [negb orb] in E3. apply N.eqb_eq, E3.
     + intros b cb Hin. specialize (E4 (b, cb) Hin). cbn [fst snd] in E4.
       destruct (snd cb) as [|[| |]] eqn:Es; try discriminate; [left; reflexivity|right; split; [reflexivity|exact E4]].
+    + intros Hnl b cb Hin Hz. rewrite Hnl in E5. cbn [andb] in E5. apply negb_false_iff in E5.
+      rewrite forallb_forall in E5. specialize (E5 (b, cb) Hin). cbn [fst snd] in E5. rewrite Hz in E5. cbn [N.eqb negb orb] in E5.
+      apply negb_true_iff in E5. exact E5.
+    + intros j Hj. rewrite Hj in E6. apply andb_true_iff in E6 as [A B]. apply Nat.leb_le in A. split; [exact A|].
+      intros Hlt. apply Nat.ltb_lt in Hlt. rewrite Hlt in B. cbn [negb orb] in B. destruct (c_res c); try discriminate; reflexivity.
   - destruct (N_list_eqb (map fst (c_cbs c)) (ids (firstn (length (c_cbs c)) (sort (c_reqs c)))) &&
               Nat.leb (length (c_cbs c)) (length (sort (c_reqs c)))) eqn:E1; cbn [negb] in H; [|discriminate].
     apply andb_true_iff in E1 as [E1 E1']. apply N_list_eqb_spec in E1. apply Nat.leb_le in E1'.
     cbn [res_eqb andb] in H.
     destruct (forallb _ (c_cbs c)) eqn:E3; cbn [negb] in H; [|discriminate].
     destruct (forallb _ (combine _ _)) eqn:E4; cbn [negb] in H; [|discriminate].
+    destruct (no_load_failure (c_env c) (c_reqs c) && negb (forallb _ (combine _ _))) eqn:E5; [discriminate|].
+    destruct (match e_cbfail (c_env c) with Some j => _ | None => true end) eqn:E6; cbn [negb] in H; [|discriminate].
     rewrite forallb_forall in E3, E4.
-    split; [discriminate|]. split; [exact E1|]. split; [exact E1'|]. split; [discriminate|]. split.
+    split; [discriminate|]. split; [exact E1|]. split; [exact E1'|]. split; [discriminate|]. split; [|split; [|split]].
     + intros cb Hcb Hfb. specialize (E3 cb Hcb). rewrite Hfb in E3. cbn [negb orb] in E3. apply N.eqb_eq, E3.
     + intros b cb Hin. specialize (E4 (b, cb) Hin). cbn [fst snd] in E4.
       destruct (snd cb) as [|[| |]] eqn:Es; try discriminate; [left; reflexivity|right; split; [reflexivity|exact E4]].
+    + intros Hnl b cb Hin Hz. rewrite Hnl in E5. cbn [andb] in E5. apply negb_false_iff in E5.
+      rewrite forallb_forall in E5. specialize (E5 (b, cb) Hin). cbn [fst snd] in E5. rewrite Hz in E5. cbn [N.eqb negb orb] in E5.
+      apply negb_true_iff in E5. exact E5.
+    + intros j Hj. rewrite Hj in E6. apply andb_true_iff in E6 as [A B]. apply Nat.leb_le in A. split; [exact A|].
+      intros Hlt. apply Nat.ltb_lt in Hlt. rewrite Hlt in B. cbn [negb orb] in B. destruct (c_res c); try discriminate; reflexivity.
 Qed.
 
 Example c43_nonvacuous :
